@@ -10,10 +10,11 @@ ALL = [f"C{n:02d}" for n in range(1, 19)]
 NA_REASONS = json.loads((ROOT / "tools" / "not_applicable.json").read_text())
 BASE = json.loads(Path("/root/.vp/BASELINE.json").read_text())["cmd"] if Path("/root/.vp/BASELINE.json").exists() else ""
 
+READY = set((ROOT / "tools" / "ready.txt").read_text().split())
 checks, na = [], []
 for p in ALL:
     f = ROOT / "harness" / "props" / f"{p.lower()}.py"
-    if not f.exists():
+    if not f.exists() or p not in READY:
         na.append({"property_id": p, "reason": NA_REASONS.get(p, "no check built yet (work in progress; see DESIGN.md 4 for the planned model)")})
         continue
     m = importlib.import_module(f"harness.props.{p.lower()}").META
